@@ -79,3 +79,14 @@ pub enum ActorError { AlreadyStopped, Other }
 // the runtime's timer
 #[verifier::external_body]
 pub fn rt_sleep(d: u64, Tracked(w): Tracked<&mut World>) ensures emits(old(w), final(w), Ev::Slept { d: d as int }) { unimplemented!() }
+// Arc::downgrade of the cell's Arc / Weak::upgrade (a change may hold the cell weakly): upgrading yields the same cell, or nothing once
+// every strong Arc of it is gone (the ActorHandle's closures are the only strong holders)
+#[verifier::external_body] #[verifier::accept_recursive_types(A)]
+pub struct WeakCell<A> { p: core::marker::PhantomData<A> }
+impl<A> OwnView for WeakCell<A> { open spec fn own(&self) -> Own { own_none() } }
+impl<A> WeakCell<A> {
+    pub uninterp spec fn cell(&self) -> int;
+    #[verifier::external_body] pub fn clone(&self) -> (r: Self) ensures r.cell() == self.cell() { unimplemented!() }
+    #[verifier::external_body] pub fn upgrade(&self) -> (r: Option<ArcCell<A>>) ensures r is Some ==> r->0.cell() == self.cell() { unimplemented!() }
+}
+impl<A> ArcCell<A> { #[verifier::external_body] pub fn downgrade(&self) -> (r: WeakCell<A>) ensures r.cell() == self.cell() { unimplemented!() } }
